@@ -631,6 +631,24 @@ M('c20-empty-word-dropped', 'C20', 'src/extensions/qaconf.c',
   'B10', '_parse_inline', 'empty words are skipped instead of stored')
 
 
+M('c19-unchar-cut-before-check', 'C19', 'src/utilities/qstring.c',
+  "    if (len >= 2 && str[0] == head && str[len - 1] == tail) {\n        memmove(str, str + 1, len - 2);\n        str[len - 2] = '\\0';\n    } else {\n        return NULL;\n    }",
+  "    if (len < 2 || str[len - 1] != tail)\n        return NULL;\n    str[len - 1] = '\\0';\n    if (str[0] != head)\n        return NULL;\n    memmove(str, str + 1, len - 1);",
+  'Q4', 'qstrunchar', 'string modified before the routine refuses it')
+M('c18-md5-chunks-same-pointer', 'C18', 'src/utilities/qhash.c',
+  "    MD5Update(&context, data, nbytes);",
+  "    {\n        size_t off_;\n        for (off_ = 0; off_ < nbytes; off_ += 4096) {\n            MD5Update(&context, data, (nbytes - off_ > 4096) ? 4096 : (unsigned int) (nbytes - off_));\n        }\n    }",
+  'H10', 'qhashmd5', 'chunk loop always passes the start of the message')
+M('c20-static-line-buffer', 'C20', 'src/extensions/qaconf.c',
+  "    char buf[MAX_LINESIZE];\n    bool doneloop = false;",
+  "    static char buf[MAX_LINESIZE];\n    bool doneloop = false;",
+  'B11', '_parse_inline', 'line buffer shared between parser objects and threads')
+M('c06-namesize-through-uint8', 'C06', 'src/containers/qhasharr.c',
+  "    tblslots[idx].data.pair.namesize = namesize;\n    tblslots[idx].link = -1;",
+  "    {\n        uint8_t shortsize = namesize;\n        tblslots[idx].data.pair.namesize = (namesize > 255) ? namesize : shortsize;\n    }\n    tblslots[idx].link = -1;",
+  'WID3', 'put_data', 'a size squeezed through an 8-bit local')
+
+
 def run_selftest(prop, rep, rule_fn, config='cmake-release'):
     """Apply every mutant of `prop` to a scratch copy, run rule_fn(prog, report) on it, and
     require a finding of the expected rule (and function)."""
